@@ -290,6 +290,16 @@ def parse_log(text):
 # --------------------------------------------------------------------------
 def write_evidence(pid, tier, seed, level, coverage, wall_s, violations=0, assumptions=None):
     os.makedirs(os.path.join(VERIF, "evidence"), exist_ok=True)
+    # keys the evidence schema reserves with a fixed type
+    for k in ("evaluations", "distinct_nontrivial", "states", "transitions", "traces_validated_against_impl",
+              "obligations", "discharged", "programs", "disagreements_checked"):
+        if k in coverage and not isinstance(coverage[k], int):
+            raise TypeError("coverage[%r] must be an integer" % k)
+    for k in ("rule", "checker_cmd", "explanation"):
+        if k in coverage and not isinstance(coverage[k], str):
+            raise TypeError("coverage[%r] must be a string" % k)
+    if "samples" in coverage and not (isinstance(coverage["samples"], list) and coverage["samples"]):
+        raise TypeError("coverage['samples'] must be a non-empty list")
     ev = {
         "property_id": pid, "tier": tier, "seed": int(seed), "level": level,
         "coverage": coverage, "assumptions": assumptions or [],
